@@ -497,10 +497,10 @@ class _NumericOperationsImpl(OperationsBlock):
         )
 
         combined_shape = nda.shape(combined)
-        how_many = ndx.zeros(combined_shape + 1, dtype=dtypes.int64)
-        how_many[
-            ndx.where(indices_x1 + 1 <= combined_shape[0], indices_x1 + 1, indices_x1)
-        ] = counts
+        # ranks run from 1 to len(combined): slot r + 1 holds the multiplicity in x1 of the value
+        # with rank r, so len(combined) + 2 slots are needed
+        how_many = ndx.zeros(combined_shape + 2, dtype=dtypes.int64)
+        how_many[indices_x1 + 1] = counts
         how_many = ndx.cumulative_sum(how_many, include_initial=False, axis=None)
 
         ret = ndx.zeros(nda.shape(x2), dtype=dtypes.int64)
